@@ -128,6 +128,14 @@ pub fn c01_pins() -> Vec<Pin> {
     vec![
         // ---- fixed on this tree (regression probes: must stay silent)
         Pin {
+            name: "or_zero_before_push",
+            src: "unsigned char a, g; void main() { Y = 3; g = (a | 46) ^ (0 | Y); }",
+            init: &[("a", 1)],
+            x: 0,
+            y: 0,
+            expect: &[("g", 44)],
+        },
+        Pin {
             name: "two_calls_in_expression",
             src: "unsigned char a, b, c; char f(char x) { return x + 1; } char g(char x) { return x + 2; } void main() { a = 10; b = 20; c = f(a) + g(b); }",
             init: &[],
@@ -321,6 +329,14 @@ pub fn c01_pins() -> Vec<Pin> {
             x: 0,
             y: 0,
             expect: &[("r", 1)],
+        },
+        Pin {
+            name: "wide_dest_shift",
+            src: "unsigned short s; void main() { s = s << 5; }",
+            init: &[("s", 0x0123)],
+            x: 0,
+            y: 0,
+            expect: &[("s", 0x2460)],
         },
         Pin {
             name: "flags_leak_across_functions",
